@@ -66,19 +66,19 @@ def reg_flux(check):
         else:
             check.violation("REG-FLUX", "%s.numflux" % cls.qualname, why, nf.loc() if nf else "", key="dispatch")
     # the discretisations pass (tag, pL, pR[, dir])
-    for q, want in (("modeldisc.fvm1d.calc_flux", ["numflux", "pL", "pR"]), ("modeldisc.fvm2dcart.calc_flux", ["numflux", "pL", "pR", "dir"])):
+    for q, want in (("modeldisc.fvm1d.calc_flux", ["numflux", "pL", "pR"]), ("modeldisc.fvm2dcart.calc_flux", ["numflux", "pL", "pR", None])):
         f = proj.func(q)
         got = None
         for node in ast.walk(f.node):
             if isinstance(node, ast.Call) and isinstance(node.func, ast.Attribute) and node.func.attr == "numflux":
-                got = [(a.attr if isinstance(a, ast.Attribute) else (a.id if isinstance(a, ast.Name) else None)) for a in node.args]
+                got = [(a.attr if isinstance(a, ast.Attribute) else (None if isinstance(a, ast.Name) else "?")) for a in node.args]
         n += 1
         if got == want:
-            check.ok("REG-FLUX", q, "calls model.numflux(%s)" % ", ".join(want), f.loc())
+            check.ok("REG-FLUX", q, "calls model.numflux(self.numflux, self.pL, self.pR%s)" % (", <face normals>" if len(want) == 4 else ""), f.loc())
         elif got is None:
             raise AnalysisError("%s: call to model.numflux not found" % q)
         else:
-            check.violation("REG-FLUX", q, "calls model.numflux(%s), expected (%s)" % (got, want), f.loc(), key="callorder")
+            check.violation("REG-FLUX", q, "calls model.numflux with arguments %s, expected (self.numflux, self.pL, self.pR%s) in this order" % (got, ", normals" if len(want) == 4 else ""), f.loc(), key="callorder")
     return n
 
 
